@@ -61,7 +61,8 @@ def fam_events(rng, n, thorough=False):
         t = Tags(1000 * (i + 1))
         k = rng.randint(1, 4)
         keyed = rng.random() < 0.3
-        c = conf(inkey=KEY if keyed else [])
+        # the incoming key filters input whatever version the node itself writes: half of the keyed nodes write v1
+        c = conf(inkey=KEY if keyed else [], version=1 if (keyed and i % 2 == 1) or (not keyed and i % 5 == 4) else 2)
         steps = opens(k)
         kinds = ["valid", "valid", "valid", "badck", "junk"] + (["badsig", "unsigned", "v1"] if keyed else ["v1"])
         closing_window = rng.random() < 0.4
@@ -177,6 +178,10 @@ def fam_events_server(rng, n):
                               chunks=None if kind == "udp_server" else rng.choice([None, [1], [4]])))
             if kind == "udp_server":
                 steps.append({"op": "sleep", "ms": 2})
+        # many frames in one transport write (for UDP: one datagram of 300..500 bytes)
+        steps.append({"op": "feed_pack", "ep": 0, "peer": rng.randint(1, npeers),
+                      "items": [{"ep": 0, "item": {"kind": "valid", "tag": t.next()}} for _ in range(rng.randint(15, 23))]})
+        steps.append({"op": "sleep", "ms": 5})
         steps.append({"op": "write", "g": 1, "kind": "MsgAll", "tag": t.next(), "sync": True, "bad": "", "raw": False})
         if kind == "tcp_server" and rng.random() < 0.6:
             p = rng.randint(1, npeers)
@@ -234,6 +239,19 @@ def fam_fanout(rng, n, thorough=False):
         steps.append({"op": "wait_writes"})
         steps.append({"op": "quiesce"})
         out.append({"name": "fanout/%d" % i, "conf": c, "endpoints": customs(k), "steps": steps})
+    # a backlog behind a transport write that fails (plain error, deadline exceeded, a net timeout, unexpected EOF, closed pipe),
+    # then the transport works again: what reaches the wire is still in submission order
+    for j, err in enumerate(["", "deadline", "net_timeout", "eof", "closed_pipe"]):
+        t = Tags(19000 + 100 * j)
+        steps = opens(2) + [{"op": "twrite_mode", "ep": 0, "mode": "block", "at": 2}]
+        for w in range(12):
+            steps.append(write(1, ["MsgAll", "FrameAll", "MsgTo", "MsgExcept"][w % 4], t.next(), ep=0 if w % 4 == 2 else (1 if w % 4 == 3 else None)))
+        steps += [{"op": "wait_writes"}, {"op": "sleep", "ms": 30}, {"op": "twrite_mode", "ep": 0, "mode": "fail", "at": 1, "err": err},
+                  {"op": "sleep", "ms": 50}]
+        for w in range(4):
+            steps.append(write(1, "MsgAll", t.next(), sync=True))
+        steps.append({"op": "quiesce", "ms": 800})
+        out.append({"name": "fanout/backlog_then_failed_write_%s" % (err or "plain"), "conf": conf(), "endpoints": customs(2), "steps": steps})
     return out
 
 
@@ -336,6 +354,18 @@ def fam_close(rng, n):
             write(1, "MsgAll", t.next(), sync=True), {"op": "sleep", "ms": 10}, {"op": "close", "from": "main"}, {"op": "wait_closed"}]})
         out.append({"name": "close/%s_idle" % kind, "conf": conf(), "endpoints": [{"kind": kind}], "steps": [
             {"op": "sleep", "ms": 5}, {"op": "close", "from": "main"}, {"op": "wait_closed"}]})
+    # many channels open at once (more than any internal queue of the node holds): 150 TCP peers, then Close
+    for stopped in (False, True):
+        steps = []
+        for p in range(1, 151):
+            steps.append({"op": "peer_connect", "ep": 0, "peer": p})
+        steps.append({"op": "wait_open", "ep": 0, "n": 150})
+        steps.append(write(1, "MsgAll", 49700, sync=True))
+        if stopped:
+            steps.append({"op": "consumer", "run": False})
+        steps += [{"op": "sleep", "ms": 20}, {"op": "close", "from": "main"}, {"op": "wait_closed"}]
+        out.append({"name": "close/many_peers_%s" % ("stopped" if stopped else "running"), "conf": conf(),
+                    "endpoints": [{"kind": "tcp_server"}], "steps": steps})
     for mode in ["accept", "refuse", "stall"]:
         steps = [{"op": "sleep", "ms": 30}]
         if mode == "refuse":
@@ -383,6 +413,16 @@ def fam_stall(rng, positions):
             steps.append(write(1, "MsgAll", t.next(), sync=True))
         steps += [{"op": "quiesce", "ms": 1500}]
         out.append({"name": "stall/fail_at_%d" % k, "conf": conf(), "endpoints": customs(2), "steps": steps})
+        # (c) the failing write reports that part of the frame was taken (0 < n < len), then the transport works again
+        t = Tags(64500 + 300 * k)
+        steps = opens(2) + [{"op": "twrite_mode", "ep": 0, "mode": "fail_partial", "at": k}]
+        for j in range(k + 3):
+            steps.append(write(1, "MsgAll" if j % 2 == 0 else "FrameAll", t.next(), sync=True))
+        steps += [{"op": "sleep", "ms": 100}]
+        for j in range(5):
+            steps.append(write(1, "MsgAll" if j % 2 == 0 else "FrameTo", t.next(), ep=0 if j % 2 else None, sync=True))
+        steps += [{"op": "quiesce", "ms": 1500}]
+        out.append({"name": "stall/fail_partial_at_%d" % k, "conf": conf(), "endpoints": customs(2), "steps": steps})
     # unencodable items at seeded positions
     for v, bad in [(2, "id_outside"), (1, "v1_big"), (1, "id_outside")]:
         for pos in sorted(set([0, rng.randint(1, 8), rng.randint(9, 30)])):
@@ -443,6 +483,11 @@ def fam_udp(rng, n):
                 k = rng.choice(KINDS)
                 ep = rng.randrange(2)
                 steps.append(write(1 + rng.randrange(2), k, t.next(), ep=ep if k.endswith(("To", "Except")) else None, sync=rng.random() < 0.5))
+        # one datagram carrying many frames (300..500 bytes): nothing of it may be lost
+        steps.append({"op": "feed_pack", "ep": 0, "peer": 1,
+                      "items": [{"ep": 0, "item": {"kind": "valid", "tag": t.next()}} for _ in range(rng.randint(15, 23))]})
+        steps.append({"op": "sleep", "ms": 5})
+        steps.append(feed(0, "valid", t.next(), peer=1))
         steps.append({"op": "quiesce", "ms": 400})
         out.append({"name": "udp/%s/%d" % (kind, i), "conf": conf(version=rng.choice([1, 2])),
                     "endpoints": [{"kind": kind}, {"kind": "custom"}], "steps": steps})
@@ -537,6 +582,26 @@ def fam_faults(rng, thorough=False):
         steps.append({"op": "quiesce", "ms": 150})
         out.append({"name": "faults/idle_%s" % kind, "conf": conf(idle_ms=idle, reconnect_ms=100, idle_silent=[[0, 1]], idle_active=[[0, 2]]),
                     "endpoints": [{"kind": kind}], "steps": steps})
+    # a connection that never stops receiving while the application stalls for one and a half idle timeouts (events are not
+    # taken, the reader waits to hand one over): the next read's deadline is armed afresh, the channel stays
+    for kind in ["tcp_server", "udp_server", "tcp_client"]:
+        t = Tags(77000)
+        idle = 300
+        steps = []
+        if kind == "tcp_client":
+            steps += [{"op": "wait_open", "ep": 0, "n": 1}, {"op": "sleep", "ms": 20}]
+        else:
+            steps += [{"op": "peer_connect", "ep": 0, "peer": 1}, feed(0, "valid", t.next(), peer=1), {"op": "wait_open", "ep": 0, "n": 1}]
+        for j in range(24):
+            steps.append(feed(0, "valid", t.next(), peer=1))
+            steps.append({"op": "sleep", "ms": idle // 4})
+            if j == 4:
+                steps.append({"op": "consumer", "run": False})
+            if j == 10:
+                steps.append({"op": "consumer", "run": True})
+        steps.append({"op": "quiesce", "ms": 150})
+        out.append({"name": "faults/active_with_stalled_consumer_%s" % kind,
+                    "conf": conf(idle_ms=idle, reconnect_ms=100, idle_active=[[0, 1]]), "endpoints": [{"kind": kind}], "steps": steps})
     # server: every peer its own channel, keeps accepting after faults (see fam_events_server), idle expiry
     for kind in ["tcp_server", "udp_server"]:
         t = Tags(76000)
@@ -585,6 +650,14 @@ def fam_auto(rng, n, thorough=False):
         steps.append(feed(0, "hb", t.next(), sys=sysid, comp=1, autopilot=3))
     steps.append({"op": "quiesce", "ms": 800})
     out.append({"name": "auto/sr_renewal", "conf": conf(sr_enable=True), "endpoints": customs(1), "steps": steps})
+    # many sources: 1100 distinct (system, component) senders on one channel within a few seconds (more than any table
+    # bound of the node), then the first sender again: no second burst for it
+    t = Tags(89800)
+    items = [{"ep": 0, "item": {"kind": "hb", "tag": t.next(), "sys": 1 + s % 250, "comp": 2 + s // 250, "autopilot": 3}} for s in range(1100)]
+    steps = opens(1) + [feed(0, "hb", t.next(), sys=1, comp=1, autopilot=3), {"op": "sleep", "ms": 50}, {"op": "burst", "items": items},
+                        {"op": "quiesce", "ms": 1500}, feed(0, "hb", t.next(), sys=1, comp=1, autopilot=3), {"op": "sleep", "ms": 100},
+                        feed(0, "hb", t.next(), sys=7, comp=3, autopilot=3), {"op": "quiesce", "ms": 800}]
+    out.append({"name": "auto/sr_many_senders", "conf": conf(sr_enable=True), "endpoints": customs(1), "steps": steps})
     # stream requests: histories of heartbeats from many sources interleaved with other traffic
     for j in range(n):
         t = Tags(90000 + 1000 * j)
